@@ -437,7 +437,9 @@ impl Sim {
         }
         let own: Vec<&Part> = self.parts.iter().filter(|p| p.cmd == Some(cmd)).collect();
         let complete_any = self.any_complete(&c.hash);
-        let pending_own = own.iter().any(|p| p.status == PartStatus::Pending);
+        // contract A1 speaks of the parts of the *payment* (hash), whichever command created them
+        let _ = own;
+        let pending_own = self.any_pending(&c.hash);
         let mut v = Vec::new();
         if complete_any {
             v.push(PayOutcome::Complete { warning: false });
